@@ -712,6 +712,21 @@ func (ev *SpecEval) call(x *SCall) (TV, error) {
 		return TV{T: "(s_arr " + args[0].T + ")", Typ: tInt}, nil
 	case "offOf":
 		return TV{T: "(s_off " + args[0].T + ")", Typ: tInt}, nil
+	case "visited":
+		// visited(N, k): key k has been produced by the map range of loop N of this function
+		if err := need(2); err != nil {
+			return TV{}, err
+		}
+		rng := c.rangeOfLoop(ev.fr, args[0].T)
+		if rng == nil {
+			return TV{}, fmt.Errorf("visited: loop %s of this function does not range over a map", args[0].T)
+		}
+		vi, ok := ev.st.vis[rng]
+		if !ok {
+			// before the range starts nothing has been visited
+			return TV{T: "false", Typ: tBool}, nil
+		}
+		return TV{T: fmt.Sprintf("(select %s %s)", vi.set, args[1].T), Typ: tBool}, nil
 	case "has":
 		if err := need(2); err != nil {
 			return TV{}, err
@@ -767,8 +782,8 @@ func (ev *SpecEval) call(x *SCall) (TV, error) {
 		return TV{T: "(i2f " + args[0].T + ")", Typ: types.Typ[types.Float64]}, nil
 	case "fdiv", "fadd", "fsub", "fmul":
 		return TV{T: "(f_" + id.Name[1:] + " " + args[0].T + " " + args[1].T + ")", Typ: types.Typ[types.Float64]}, nil
-	case "sliceArg", "sliceRes":
-		pre := map[string]string{"sliceArg": "TR_sa", "sliceRes": "TR_sr"}[id.Name]
+	case "sliceArg", "sliceArg2", "sliceRes":
+		pre := map[string]string{"sliceArg": "TR_sa", "sliceArg2": "TR_sb", "sliceRes": "TR_sr"}[id.Name]
 		aa := c.arr(ev.st, pre+"_arr", "Int")
 		ao := c.arr(ev.st, pre+"_off", "Int")
 		al := c.arr(ev.st, pre+"_len", "Int")
